@@ -41,7 +41,7 @@ FORMULA = "C09_Dedup"
 MIDS = ["i1", "i2", "i3", "i4"]
 # (expected_items, false_positive_rate) of the real class -> (M, K) of the model; Cap = expected_items
 SIZES = {"s5": {"n": 2, "p": 0.35, "M": 5, "K": 2}, "s6": {"n": 3, "p": 0.40, "M": 6, "K": 2},
-         "s8": {"n": 2, "p": 0.16, "M": 8, "K": 3}}
+         "s7": {"n": 2, "p": 0.20, "M": 7, "K": 3}}
 
 
 # ----------------------------------------------------------------------------------------------
@@ -964,7 +964,7 @@ def run_component(tier: str, seed: int, corrupt: bool = False) -> dict:
 
     # ---- all TLC jobs, run concurrently -----------------------------------------------------------------
     jobs: dict[str, tuple] = {}
-    fconfigs = [("s5", ids4m, 4)] + ([("s6", ids4m, 4), ("s8", ids3m, 3)] if thorough else [])
+    fconfigs = [("s5", ids4m, 4)] + ([("s6", ids4m, 4), ("s7", ids3m, 3)] if thorough else [])
     for (sz, idset, nid) in fconfigs:
         new_filter(SIZES[sz])          # the model's (M, K) is what the real class computes for (n, p)
         jobs["filter:" + sz] = (cfg(SIZES[sz], "FilterNext" if thorough else "FilterCore", idset, "AllH", invariants=FILTER_INV,
@@ -1100,7 +1100,7 @@ def run_component(tier: str, seed: int, corrupt: bool = False) -> dict:
             inits, edges = parse_export(res.out)
             cap = s5["n"]
             walks, cov, tot = covering_walks(
-                inits, edges, rnd, 150, budget, max_priority=(30 if not thorough else 10**9),
+                inits, edges, rnd, 150, budget, max_priority=(30 if not thorough else 150),
                 priority=lambda e: (e["a"]["op"] in ("readids", "restart") and len(e["s"]["processed"]) >= cap)
                 or e["a"]["op"] == "skipdup" or (e["a"]["op"] == "handle" and e["a"].get("skipped")))
             pe["edges"] += tot
@@ -1181,8 +1181,8 @@ def run_component(tier: str, seed: int, corrupt: bool = False) -> dict:
     t2 = {"edges": 0, "covered": 0, "walks": 0, "steps": 0, "mismatches": 0}
     for trust in (True, False):
         inits, edges = parse_export(results["pexp2:%s" % trust].out)
-        walks, cov, tot = covering_walks(inits, edges, rnd, 120, 800 if not thorough else 30000,
-                                         max_priority=(10 if not thorough else 300),
+        walks, cov, tot = covering_walks(inits, edges, rnd, 120, 800 if not thorough else 10000,
+                                         max_priority=(10 if not thorough else 100),
                                          priority=lambda e: bool(e["t"]["bad"]) and not e["s"]["bad"])
         t2["edges"] += tot
         t2["covered"] += cov
